@@ -10,6 +10,8 @@ func init() {
 		variant{Prop: "C12", Name: "let-without-initialiser-skips-separator", File: pf, Old: "\t\tstmt.Value = p.ParseExpression()\n\t}\n\tif !p.ExpectSemicolonASI() {\n\t\treturn nil\n\t}\n\treturn stmt\n}\n\n// ParseLetExpression", New: "\t\tstmt.Value = p.ParseExpression()\n\t} else {\n\t\treturn stmt\n\t}\n\tif !p.ExpectSemicolonASI() {\n\t\treturn nil\n\t}\n\treturn stmt\n}\n\n// ParseLetExpression", Rule: "R12.2", Construct: "ParseLetStatement"},
 		variant{Prop: "C12", Name: "unclosed-block-error-deleted", File: pf, Old: "\tif p.CurrentToken.Type != token.RBRACE && !p.tolerantMode {\n\t\tp.AddError(\"unclosed block statement, expected '}'\")\n\t}", New: "", Rule: "R12.3", Construct: "ParseBlockStatement"},
 		variant{Prop: "C12", Name: "unknown-prefix-silent", File: pf, Old: "\t\tp.AddError(fmt.Sprintf(\"unexpected %s\", p.CurrentToken.Literal))\n\t\treturn nil", New: "\t\t_ = fmt.Sprintf\n\t\treturn nil", Rule: "R12.4", Construct: "ParsePrefixExpression"},
+		variant{Prop: "C12", Name: "unterminated-string-accepted-again", File: "lexer/base_functions.go", Old: "\t\tif l.CurrentChar == '\"' {\n\t\t\ttok = l.NewTokenAt(token.STRING, literal, startLine, startColumn)\n\t\t} else {\n\t\t\t// the input ended before the closing delimiter\n\t\t\ttok = l.NewTokenAt(token.ILLEGAL, literal, startLine, startColumn)\n\t\t}", New: "\t\ttok = l.NewTokenAt(token.STRING, literal, startLine, startColumn)", Rule: "R12.5", Construct: "STRING token from readString"},
+		variant{Prop: "C12", Name: "unterminated-backtick-check-wrong-byte", File: "lexer/base_functions.go", Old: "\t\tif l.CurrentChar == '`' {", New: "\t\tif l.CurrentChar != '\\\\' {", Rule: "R12.5", Construct: "RAW_STRING token"},
 		variant{Prop: "C12", Name: "benign-asi-eof-or-rbrace-merged", File: pf, Old: "\tif p.PeekToken.Type == token.EOF {\n\t\treturn true\n\t}\n\tif p.PeekToken.Type == token.RBRACE {\n\t\treturn true\n\t}", New: "\tif p.PeekToken.Type == token.EOF || p.PeekToken.Type == token.RBRACE {\n\t\treturn true\n\t}", Benign: true},
 	)
 }
